@@ -51,10 +51,17 @@ struct RunOut {
 }
 
 fn execute(case: &Case, sched_bytes: &[u8], explicit: Option<Vec<(u64, usize)>>) -> RunOut {
+    // The wrapper keeps the recorder in an Arc; if a change to the library lets a call run inside the
+    // recorder after the Arc was released, the oracle should see it (flags, counters) rather than
+    // the process dying of heap corruption, so blocks of that size are never handed back.
+    crate::alloc::never_free_size(16 + std::mem::size_of::<LogRecorder>());
     let log = new_log();
     let double = LogRecorder::new(7, &log).yielding();
     let drops = double.drops.clone();
     let inside = double.inside.clone();
+    // keep every shared part of the double alive for the whole case, so that a stale copy of the
+    // recorder (used after release by a broken library) still points at valid memory
+    let _keep_alive = (double.in_scope.clone(), double.finalized.clone(), double.log.clone());
     let (wrapped, handle) = RecoverableRecorder::new(double).__verif_build();
     let events: Mutex<Vec<Ev>> = Mutex::new(Vec::new());
     let mut bodies: Vec<Box<dyn FnOnce() + Send + '_>> = Vec::new();
@@ -91,6 +98,11 @@ fn execute(case: &Case, sched_bytes: &[u8], explicit: Option<Vec<(u64, usize)>>)
                 let rec = handle.into_inner();
                 let ins = inside.load(Ordering::SeqCst);
                 events.lock().unwrap().push(Ev::RecoverEnd { inside_at_return: ins, got_id: Some(rec.id) });
+                if ins != 0 {
+                    // a call is still executing inside the recorder: keep it alive, the oracle reports it
+                    std::mem::forget(rec);
+                    return;
+                }
                 sched::point("c20.recovered");
                 drop(rec);
             } else {
